@@ -2,6 +2,7 @@ import KrillModel.Drivers.Queue
 import KrillModel.Drivers.Fault
 import KrillModel.Drivers.Conc
 import KrillModel.Drivers.SysReq
+import KrillModel.Drivers.SysReload
 import KrillModel.Drivers.Http
 import KrillModel.Drivers.Pubd
 import KrillModel.Drivers.AggStore
@@ -18,6 +19,7 @@ def main (args : List String) : IO UInt32 := do
   | ["fault"] => KM.Drv.Fault.main; return 0
   | ["conc"] => KM.Drv.Conc.main; return 0
   | ["sysreq"] => KM.Drv.SysReq.main; return 0
+  | ["sysreload"] => KM.Drv.SysReload.main; return 0
   | ["http"] => KM.Drv.Http.main; return 0
   | ["pubd"] => KM.Drv.Pubd.main ""; return 0
   | ["pubd", prop] => KM.Drv.Pubd.main prop; return 0
